@@ -232,14 +232,18 @@ class Encoded:
         pc = self.pc if upto is None else self.pc[:upto]
         return self.pdefs + self._plain_cons(cone, assume_div) + self.asm + pc
 
-    def variants_eq(self, a, b, negate=True):
-        """queries for `a != b` (negated obligation) in both encodings"""
+    def variants_eq(self, a, b, negate=True, given=()):
+        """queries for `a != b` (negated obligation) in both encodings; `given` = assumptions local to the obligation"""
         goal = f"(assert (not (= {self.arena.name(a)} {self.arena.name(b)})))"
-        v = [("plain", self.base_plain((a, b)), [goal])]
+        groots = {a, b}
+        for (x, _op, y) in given:
+            groots.update((x, y))
+        extra = [f"(assert {self.arena.rel(x, op, y)})" for (x, op, y) in given]
+        v = [("plain", self.base_plain(tuple(groots)), extra + [goal])]
         if self.ff is not None:
-            cone = self.arena.cone({a, b} | self.ctx_roots)
+            cone = self.arena.cone(groots | self.ctx_roots)
             base = self.ff.lines + self.ff.constraints_for(cone) + self.ff_asm + self.ff_pc
-            v.append(("ff", base, [f"(assert {self.ff.rel(a, '!=', b)})"]))
+            v.append(("ff", base, [f"(assert {self.ff.rel(x, op, y)})" for (x, op, y) in given] + [f"(assert {self.ff.rel(a, '!=', b)})"]))
         return v
 
 
@@ -250,6 +254,8 @@ def analyze_run(h, res, scenario, cfg, doc, prefixes, budget, replay_dir, expect
     roots = set()
     for ob in obs:
         for (_l, a, b) in ob["eqs"]:
+            roots.update((a, b))
+        for (a, _op, b) in ob.get("given", []):
             roots.update((a, b))
     garbage = -1 in roots
     enc = Encoded(arena, doc, roots)
@@ -301,10 +307,10 @@ def analyze_run(h, res, scenario, cfg, doc, prefixes, budget, replay_dir, expect
                 res.identical += 1
                 res.discharged += 1
                 continue
-            todo.append((ob["name"], label, a, b))
-    variants = [enc.variants_eq(t[2], t[3]) for t in todo]
+            todo.append((ob["name"], label, a, b, ob.get("given", [])))
+    variants = [enc.variants_eq(t[2], t[3], given=t[4]) for t in todo]
     verdicts = solve_many_variants(variants, budget, uf, res.stats)
-    for (oname, label, a, b), var, v in zip(todo, variants, verdicts):
+    for (oname, label, a, b, _given), var, v in zip(todo, variants, verdicts):
         full = f"{oname}/{label}"
         if v.result == "unsat":
             res.discharged += 1
@@ -428,7 +434,8 @@ def explore(h, res, scenario, cfg, prefixes, budget, replay_dir):
     work = [(None, 0)]     # (inputs, bound)
     seen_paths = set()
     paths = 0
-    while work and paths < budget.max_paths:
+    max_paths = min(budget.max_paths, int(cfg.get("maxpaths", budget.max_paths))) if isinstance(cfg, dict) else budget.max_paths
+    while work and paths < max_paths:
         inputs, bound = work.pop(0)
         doc = h.run("sym", scenario, cfg, inputs=inputs)
         if doc.get("crash"):
